@@ -22,6 +22,37 @@ def big_loss_base(rnd, ffr=False):
     return s
 
 
+def big_count_base(rnd, ffr=False):
+    """more than 2048 data fragments (the pivot bitmap has 2048 bits, the status table 16384 entries), a few losses"""
+    blk, sz = 256, 1
+    slot = session.DRO + 4096
+    n = rnd.choice([2049, 2050, rnd.randint(2051, 2600), rnd.randint(2051, 4000)])
+    cap = session.max_l(slot, sz)
+    lost = set(rnd.sample(range(1, n + 1), rnd.randint(2, 5)))
+    img = ts004.make_image(rnd, n, sz)
+    seq = [i for i in range(1, n + 1) if i not in lost] + list(range(n + 1, n + 1 + len(lost) + 6))
+    s = session.Scn(4, slot, blk)
+    s.meta = dict(n=n, sz=sz, cap=cap, img=img, seq=seq, mode="big-count", lost=sorted(lost), ffr=ffr, bigcount=True)
+    s.meta["start_op"] = s.add("start %d %d" % (sz, n))
+    return s
+
+
+def high_number_base(rnd, ffr=False):
+    """coded fragments with high numbers (the PRBS seed 1 + 1001 N exceeds 23 bits from N = 8381 on; wire indices beyond 16384)"""
+    blk, sz = 256, rnd.choice([1, 4, 16])
+    slot = session.DRO + 1024
+    n = rnd.randint(8, 40)
+    cap = session.max_l(slot, sz)
+    lost = set(rnd.sample(range(1, n + 1), rnd.randint(1, min(4, cap))))
+    img = ts004.make_image(rnd, n, sz)
+    N0 = rnd.choice([8375, 8381, 8384, 9000, 12000, 16000, 16370, 17000, 30000])
+    seq = [i for i in range(1, n + 1) if i not in lost] + [n + N0 + j for j in range(len(lost) + 8)]
+    s = session.Scn(4, slot, blk)
+    s.meta = dict(n=n, sz=sz, cap=cap, img=img, seq=seq, mode="high-number", lost=sorted(lost), ffr=ffr)
+    s.meta["start_op"] = s.add("start %d %d" % (sz, n))
+    return s
+
+
 def wide_loss_base(rnd, ffr=False):
     """many unknowns around the word boundaries of the bit rows (63..66, 72, 127..130 lost fragments), random or one contiguous outage"""
     blk, sz = 256, rnd.choice([1, 1, 2])
@@ -146,7 +177,7 @@ def evaluate(chk, scns, lines, impl, outs, variant, dist):
         for msg in oracle_twin(s, out, refout)[:2]:
             chk.failures.append(core.Failure(msg, "session", variant, l, raw[:2000], key="c07"))
         nt.append(l)
-        if len(chk.failures) > 10: break
+        if chk.too_many(): break
     return nt
 
 
@@ -196,10 +227,20 @@ def run(chk):
     dist = {"reference_runs": 0, "single_reboot": 0, "multi_reboot": 0, "after_completion_before_mark": 0, "after_refusal": 0}
     nt = evaluate(chk, scns, lines, impl, outs, "matrix", dist)
     chk.note_cases("session-twin-wide[matrix]", lines, nt, sample_n=0, dist=dist)
+    # more than 2048 data fragments: the model needs far too long at this size, these twins are judged by the oracle alone
+    scns = []
+    for _ in range(1 if chk.quick() else 8):
+        b = big_count_base(rnd)
+        fc = len([i for i in b.meta["seq"] if i <= b.meta["n"]])
+        scns += twin_scenarios(rnd, True, base=b, positions=lambda npos, fc=fc: sorted(set([1, fc // 2, fc - 1, fc + 1, fc + 2])))
+    lines, impl, outs = session.run(chk, scns, variant="matrix", stream="session-twin-bigcount", with_model=False)
+    dist = {"reference_runs": 0, "single_reboot": 0, "multi_reboot": 0, "after_completion_before_mark": 0, "after_refusal": 0}
+    nt = evaluate(chk, scns, lines, impl, outs, "matrix", dist)
+    chk.note_cases("session-twin-bigcount[matrix, oracle only]", [l[:300] for l in lines], [l[:300] for l in nt], sample_n=0, dist=dist)
     if (chk.broken or chk.drift) and not chk.failures:
         search(chk, rnd)
     return chk.finish(level="proof",
-        rule="session-twin-wide: 520..620 one-byte fragments, one 256-aligned window of the segment status table never written plus 1..3 losses behind it, reboots in stage 1, around the first coded fragment, mid-way and around completion; "
+        rule="session-twin-bigcount: 2049..4000 one-byte fragments (more than the 2048 bits of the pivot bitmap), a few losses, reboots in stage 1 and around the first coded fragments; oracle only - the model needs far too long at this size; session-twin-wide: 520..620 one-byte fragments, one 256-aligned window of the segment status table never written plus 1..3 losses behind it, reboots in stage 1, around the first coded fragment, mid-way and around completion; "
              "session-twin: for each delivery scenario (geometries with capacity >= 1; ring positions from random histories, and explicitly the pair that wraps the ring end) one uninterrupted run and runs with drop + try_recover before fragment p for every p (all positions for short scripts, a sample incl. first / last / after completion otherwise), "
              "several positions at once and at every position; overflow-checked and release builds; non-trivial = every twin run; distinct by case text",
         trusted=core.TRUSTED_COMMON)
